@@ -26,6 +26,15 @@ FUNCS = ['past.translate', 'past.Nodes.*.flatten', 'past._flatten_previous', 'pa
          'past._flatten_until', 'past._make_tester_for_previous']
 SOLVER_MS = 120000
 VARS = ['p', 'q']
+INTS = ['x', 'y']          # integer-valued trace variables, used inside comparison atoms only
+# atoms over integers: ('cmp', op, A, B) with A, B in ('ivar', n) | ('num', k) | ('arith', op, A, B) | ('aite', c, A, B)
+INT_ATOMS = [
+    ('cmp', '=', ('ivar', 'x'), ('num', 1)),
+    ('cmp', '<', ('ivar', 'x'), ('ivar', 'y')),
+    ('cmp', '>', ('arith', '+', ('ivar', 'x'), ('ivar', 'y')), ('num', 1)),
+    ('cmp', '>=', ('aite', ('var', 'p'), ('ivar', 'x'), ('arith', '-', ('ivar', 'y'), ('num', 1))), ('num', 1)),
+    ('cmp', '#', ('ivar', 'y'), ('num', 0)),
+]
 
 UN_PAST = ['wprev', 'sprev', 'hist', 'once']
 BIN_PAST = ['since']
@@ -43,6 +52,14 @@ def to_str(t):
         return t[1]
     if k == 'const':
         return 'TRUE' if t[1] else 'FALSE'
+    if k == 'ivar':
+        return t[1]
+    if k == 'num':
+        return str(t[1])
+    if k in ('cmp', 'arith'):
+        return f'({to_str(t[2])} {t[1]} {to_str(t[3])})'
+    if k in ('aite', 'bite'):
+        return f'ite({to_str(t[1])}, {to_str(t[2])}, {to_str(t[3])})'
     if len(t) == 2:
         return f'({SPELL[k]} {to_str(t[1])})'
     return f'({to_str(t[1])} {SPELL[k]} {to_str(t[2])})'
@@ -55,16 +72,28 @@ def all_depth1():
         out += [(u, a) for a in atoms]
     for b in BIN_PAST + BOOL_BIN:
         out += [(b, a, c) for a in atoms for c in atoms]
+    # comparison atoms over integer-valued variables under every past operator, and the ternary connective
+    for a in INT_ATOMS:
+        out += [(u, a) for u in UN_PAST]
+        out += [('since', a, ('var', 'p')), ('since', ('var', 'q'), a)]
+    out += [('since', INT_ATOMS[0], INT_ATOMS[1]),
+            ('wprev', ('bite', ('var', 'p'), ('var', 'q'), INT_ATOMS[0])),
+            ('bite', ('sprev', ('var', 'p')), ('once', INT_ATOMS[1]), ('hist', ('var', 'q')))]
     return out
 
 
-def gen(rnd, depth, un, bi):
+def gen(rnd, depth, un, bi, ints=False):
     if depth == 0 or rnd.random() < 0.2:
-        return ('var', rnd.choice(VARS)) if rnd.random() < 0.85 else ('const', rnd.random() < 0.5)
+        r0 = rnd.random()
+        if r0 < 0.2 and ints:
+            return rnd.choice(INT_ATOMS)
+        return ('var', rnd.choice(VARS)) if r0 < 0.88 else ('const', rnd.random() < 0.5)
     r = rnd.random()
+    if r < 0.08 and ints:
+        return ('bite',) + tuple(gen(rnd, depth - 1, un, bi, ints) for _ in range(3))
     if r < 0.45:
-        return (rnd.choice(un + ['not']), gen(rnd, depth - 1, un, bi))
-    return (rnd.choice(bi + BOOL_BIN), gen(rnd, depth - 1, un, bi), gen(rnd, depth - 1, un, bi))
+        return (rnd.choice(un + ['not']), gen(rnd, depth - 1, un, bi, ints))
+    return (rnd.choice(bi + BOOL_BIN), gen(rnd, depth - 1, un, bi, ints), gen(rnd, depth - 1, un, bi, ints))
 
 
 # ------------------------------------------------------------------ evaluation of omega strings
@@ -90,7 +119,11 @@ def _conv(node, primed):
         return ('v', node.value, primed)
     if cls == 'Bool':
         return ('c', node.value.lower() == 'true')
+    if cls == 'Num':
+        return ('n', int(node.value))
     op = node.operator
+    if cls in ('Comparator', 'Arithmetic'):
+        return ('cmp' if cls == 'Comparator' else 'ar', op, _conv(node.operands[0], primed), _conv(node.operands[1], primed))
     xs = node.operands
     if cls == 'Unary':
         if op in ('X', "'"):
@@ -118,6 +151,11 @@ def _ev(t, val):
         return z3.BoolVal(t[1])
     if k == 'not':
         return z3.Not(_ev(t[1], val))
+    if k == 'n':
+        return z3.IntVal(t[1])
+    if k in ('cmp', 'ar'):
+        a, b = _ev(t[2], val), _ev(t[3], val)
+        return _OPS[t[1]](a, b)
     a, b = _ev(t[1], val), _ev(t[2], val)
     if k == 'and':
         return z3.And(a, b)
@@ -134,12 +172,18 @@ def _ev(t, val):
     raise ValueError(k)
 
 
+_OPS = {'=': lambda a, b: a == b, '#': lambda a, b: a != b, '!=': lambda a, b: a != b, '/=': lambda a, b: a != b,
+        '<': lambda a, b: a < b, '<=': lambda a, b: a <= b, '=<': lambda a, b: a <= b,
+        '>': lambda a, b: a > b, '>=': lambda a, b: a >= b,
+        '+': lambda a, b: a + b, '-': lambda a, b: a - b, '*': lambda a, b: a * b}
+
+
 def _max_primes(t):
     if t[0] == 'v':
         return t[2]
-    if t[0] == 'c':
+    if t[0] in ('c', 'n'):
         return 0
-    return max(_max_primes(c) for c in t[1:])
+    return max(_max_primes(c) for c in t[1:] if isinstance(c, tuple))
 
 
 # ------------------------------------------------------------------ reference semantics
@@ -152,6 +196,14 @@ def ref_past(t, i, P):
         return P[t[1]][i]
     if k == 'const':
         return z3.BoolVal(t[1])
+    if k == 'ivar':
+        return P[t[1]][i]
+    if k == 'num':
+        return z3.IntVal(t[1])
+    if k in ('cmp', 'arith'):
+        return _OPS[t[1]](ref_past(t[2], i, P), ref_past(t[3], i, P))
+    if k in ('aite', 'bite'):
+        return z3.If(ref_past(t[1], i, P), ref_past(t[2], i, P), ref_past(t[3], i, P))
     if k == 'not':
         return z3.Not(ref_past(t[1], i, P))
     if k == 'wprev':
@@ -175,6 +227,14 @@ def py_past(t, i, P):
         return P[t[1]][i]
     if k == 'const':
         return t[1]
+    if k == 'ivar':
+        return P[t[1]][i]
+    if k == 'num':
+        return t[1]
+    if k in ('cmp', 'arith'):
+        return _OPS[t[1]](py_past(t[2], i, P), py_past(t[3], i, P))
+    if k in ('aite', 'bite'):
+        return py_past(t[2], i, P) if py_past(t[1], i, P) else py_past(t[3], i, P)
     if k == 'not':
         return not py_past(t[1], i, P)
     if k == 'wprev':
@@ -219,6 +279,7 @@ def check_past(formulas, L):
             continue
         sample.update(translated=r, init=init, trans=' '.join(trans.split()), aux=aux)
         P = {v: [z3.Bool(f'{v}@{i}') for i in range(L)] for v in VARS}
+        P.update({v: [z3.Int(f'{v}@{i}') for i in range(L)] for v in INTS})
 
         def mk(tag):
             A = {a: [z3.Bool(f'{a}{tag}@{i}') for i in range(L)] for a in aux}
@@ -270,6 +331,8 @@ def check_past(formulas, L):
             out.append(core.res(name, 'inconclusive', queries=q, solver_s=dt, sample=sample, detail=f'{label}: {r_}'))
             continue
         trace = {v: [z3.is_true(m.eval(P[v][i], model_completion=True)) for i in range(L)] for v in VARS}
+        if any(n in s for n in ('x', 'y')):
+            trace.update({v: [m.eval(P[v][i], model_completion=True).as_long() for i in range(L)] for v in INTS})
         cex = dict(kind='past', formula=list_tree(t), L=L, trace=trace, label=label)
         ok, why = replay(dict(cex=cex))
         out.append(core.res(name, 'violation' if ok else 'inconclusive', queries=q, solver_s=dt, sample=sample,
@@ -324,13 +387,13 @@ def replay(payload):
         def val(nm, np):
             return (trace[nm] if nm in trace else A[nm])[i + np]
         return _evpy(tree, val)
-    sols = []
-    for bits in itertools.product([False, True], repeat=len(aux) * L):
-        A = {a: list(bits[k * L:(k + 1) * L]) for k, a in enumerate(aux)}
-        if evp(I, 0, A) and all(evp(T, i, A) for i in range(L - 1)):
-            sols.append(A)
-            if len(sols) > 1:
-                break
+    def partial(A, n):
+        # positions 0 .. n-1 assigned: the initial condition and the last complete step
+        try:
+            return (evp(I, 0, A) if n == 1 else True) and (evp(T, n - 2, A) if n >= 2 else True)
+        except IndexError:
+            return True
+    sols = _solve_aux(aux, L, partial, lambda A: evp(I, 0, A) and all(evp(T, i, A) for i in range(L - 1)))
     if len(sols) == 0:
         return True, 'no auxiliary values satisfy the initial condition and transition relation on this trace'
     if len(sols) > 1 and aux:
@@ -345,6 +408,30 @@ def replay(payload):
     return False, 'testers have exactly one solution and the translated formula agrees at every position'
 
 
+def _solve_aux(aux, L, partial, full, limit=2):
+    """Auxiliary traces (no z3): depth-first over positions, pruned by `partial` after each position, at most
+    `limit` solutions. Equivalent to trying all 2^(|aux| * L) traces, without the cost."""
+    vals = list(itertools.product([False, True], repeat=len(aux)))
+    sols = []
+
+    def rec(prefix):
+        if len(sols) >= limit:
+            return
+        n = len(prefix)
+        A = {a: [v[k] for v in prefix] for k, a in enumerate(aux)}
+        if n == L:
+            if full(A):
+                sols.append(A)
+            return
+        for v in vals:
+            pre = prefix + [v]
+            B = {a: A[a] + [v[k]] for k, a in enumerate(aux)}
+            if partial(B, n + 1):
+                rec(pre)
+    rec([])
+    return sols
+
+
 def _evpy(t, val):
     k = t[0]
     if k == 'v':
@@ -353,6 +440,10 @@ def _evpy(t, val):
         return t[1]
     if k == 'not':
         return not _evpy(t[1], val)
+    if k == 'n':
+        return t[1]
+    if k in ('cmp', 'ar'):
+        return _OPS[t[1]](_evpy(t[2], val), _evpy(t[3], val))
     a, b = _evpy(t[1], val), _evpy(t[2], val)
     if k == 'ite':
         return b if a else _evpy(t[3], val)
@@ -550,14 +641,14 @@ def replay_future(c, t, dvars, r, init, trans, win):
                 j = succ(j)
             return (trace[nm] if nm in trace else A[nm])[j]
         return _evpy(tree, val)
-    sols = []
-    for bits in itertools.product([False, True], repeat=len(aux) * L):
-        A = {a: list(bits[k * L:(k + 1) * L]) for k, a in enumerate(aux)}
-        if evp(I, 0, A) and all(evp(T, i, A) for i in range(L)) and \
-                all(any(evp(w, i, A) for i in range(lp, L)) for w in Wn):
-            sols.append(A)
-            if len(sols) > 1:
-                break
+    def partial(A, n):
+        try:
+            return (evp(I, 0, A) if n == 1 else True) and (evp(T, n - 2, A) if n >= 2 else True)
+        except IndexError:
+            return True
+    sols = _solve_aux(aux, L, partial,
+                      lambda A: evp(I, 0, A) and all(evp(T, i, A) for i in range(L)) and
+                      all(any(evp(w, i, A) for i in range(lp, L)) for w in Wn))
     if not sols:
         return True, 'no auxiliary values satisfy the testers with fairness on this lasso'
     if len(sols) > 1 and aux:
@@ -576,7 +667,9 @@ def run(tier, seed, t0, only=None):
     n2, n3 = (600, 300) if tier == 'quick' else (4000, 3000)
     seen = set()
     past_f = []
-    for t in d1 + [gen(rnd, 2, UN_PAST, BIN_PAST) for _ in range(n2)] + [gen(rnd, 3, UN_PAST, BIN_PAST) for _ in range(n3)]:
+    for t in (d1 + [gen(rnd, 2, UN_PAST, BIN_PAST) for _ in range(n2)] + [gen(rnd, 3, UN_PAST, BIN_PAST) for _ in range(n3)]
+              + [gen(rnd, 2, UN_PAST, BIN_PAST, ints=True) for _ in range(n2 // 3)]
+              + [gen(rnd, 3, UN_PAST, BIN_PAST, ints=True) for _ in range(n3 // 3)]):
         if t not in seen:
             seen.add(t)
             past_f.append(t)
@@ -600,7 +693,7 @@ def run(tier, seed, t0, only=None):
     results = core.run_tasks(tasks)
     return core.finish(
         PID, tier, seed, 'model_checking', results, t0, files=FILES,
-        bounds=dict(variables=VARS, past=f'all {len(d1)} formulas of depth 1, seeded depth 2-3 ({len(past_f)} distinct), traces of length {Lp}',
+        bounds=dict(variables=VARS, integer_atoms=[to_str(a) for a in INT_ATOMS], past=f'all {len(d1)} formulas of depth 1, seeded depth 2-3 ({len(past_f)} distinct), traces of length {Lp}',
                     until=f'{len(fut_f)} seeded future-only formulas (U, [], <>, X) of depth <= 3 on lassos of length {Lf} with symbolic loop point'),
         rule='one obligation per formula: agreement at every position, uniqueness, existence (QBF) over the whole symbolic '
              'trace. Non-trivial = the formula contains a temporal operator; distinct formulas',
